@@ -36,7 +36,9 @@ CXXFLAGS = ['-O2', '-std=c++17', '-w']
 CACHE = os.environ.get('C11_CACHE', '/var/tmp/fpyverif_c11_cache')
 
 # violation kind -> id in known_findings.json (filled in when a finding is registered; None = unlisted)
-FINDING_OF_KIND: dict = {}
+# 'does-not-compile' (C11-F1: abs() under an unsigned context) and 'fenv-optimised' (C11-F2: rounded operations moved across
+# fesetround by the optimiser) are repaired in /repo: unlisted, a recurrence is a violation.
+FINDING_OF_KIND: dict = {'zero-sign': 'C11-F3', 'sign-only': 'C11-F3', 'neg-zero-integer-storage': 'F29'}
 PER_SHAPE = int(os.environ.get('C11_PER_SHAPE', '2'))   # replay records kept per (kind, template); all are counted
 
 OPTION_COMBOS = [(o, u, a) for o in (True, False) for u in (UnboxMode.NEVER, UnboxMode.ALLOW, UnboxMode.STRICT) for a in (True, False)]
@@ -306,8 +308,8 @@ def encode_arg(v, cty) -> list[int] | None:
 # of the call/compile context), tag=...)
 
 TEMPLATES: list[dict] = []
-def T(tag, entry, args, src, ctx='fp.FP64', rm='RNE'):
-    TEMPLATES.append(dict(tag=tag, entry=entry, args=args, src=src, ctx=ctx, rm=rm))
+def T(tag, entry, args, src, ctx='fp.FP64', rm='RNE', pinned=()):
+    TEMPLATES.append(dict(tag=tag, entry=entry, args=args, src=src, ctx=ctx, rm=rm, pinned=[list(v) for v in pinned]))
 
 HDR = '''import fpy2 as fp
 RTZ64 = fp.IEEEContext(11, 64, fp.RM.RTZ)
@@ -463,7 +465,7 @@ def t_zsum(x: fp.Real, y: fp.Real):
         g = x - x
         h = y - y
     return (a, b, c, d, e, f, g, h)
-''')
+''', pinned=[(1.0, -1.0), (0.0, -0.0), (2.5, 3.0)])   # C11-F3: x - x, (+0) + (-0), fma with an exact zero result, under RTN
 T('cmp', 't_cmp', ['f64', 'f64'], '''
 @fp.fpy
 def t_cmp(x: fp.Real, y: fp.Real):
@@ -782,7 +784,7 @@ def t_idiv(x: fp.Real, y: fp.Real):
     return (q, m, n)
 ''')
 for _a in ('s8', 'u8', 's16', 's32', 'f32'):
-    T('exact-' + _a, 't_exact', [_a, _a], '''
+    T('exact-' + _a, 't_exact', [_a, _a], pinned=([(-128, 0), (0, 5)] if _a == 's8' else [(0, 10)] if _a == 'u8' else []), src='''
 @fp.fpy
 def t_exact(x: fp.Real, y: fp.Real):
     with fp.REAL:
@@ -1353,6 +1355,7 @@ def differential(rep, R, progs, n_vec, tmp, quick, fixed=None):
         for k in range(n_vec):
             L = R.choice([0, 1, 2, 3, 4])
             vecs.append([gen_value(R, d, L) for d in p['args']])
+        vecs = [list(v) for v in p.get('pinned', [])] + vecs
         if fixed is not None: vecs = fixed[pi]
         jobs.append((pi, p, vecs, tmp))
     t0 = time.time()
@@ -1533,7 +1536,10 @@ def differential(rep, R, progs, n_vec, tmp, quick, fixed=None):
             args = vecs_of[pi][vi]
             def judge(res):
                 if res[0] == 'crash': return 'crash', res[1]
-                if res[1] != want: return classify_value_diff(want, res[1], res[3][-1]), show_canon(res[1])
+                if res[1] != want:
+                    kd = classify_value_diff(want, res[1], res[3][-1])
+                    if kd in ('zero-sign', 'sign-only') and 'FE_DOWNWARD' not in k['text']: kd = 'value'
+                    return kd, show_canon(res[1])
                 if res[2] != k['rm']: return 'mode', f'fegetround() after the call is {res[2]}, was {k["rm"]} at entry'
                 return None, None
             bad2, got2 = judge(res2)
